@@ -104,6 +104,9 @@ func (self *Compiler) addFn(srcIdent string, mangledName string) {
 		CntVariables: 0,
 		CleanupLabel: "",
 	}
+	if _, exists := self.modules[self.currModule][srcIdent]; !exists {
+		self.fnOrder = append(self.fnOrder, fnKey{module: self.currModule, ident: srcIdent})
+	}
 	self.modules[self.currModule][srcIdent] = &fn
 }
 
